@@ -1297,6 +1297,14 @@ func (c *Ctx) assetNameCodec() {
 	site := "asset.(*FileSystemRepository).Assets"
 	// EXT from the builder reached from Get: a string constant "%s<EXT>" passed to Sprintf, or name + EXT
 	ext := ""
+	rawName := "" // "" = the name goes into the file name as it is; otherwise what goes in instead
+	isParam := func(fi *load.FuncInfo, e ast.Expr) bool {
+		id, ok := ast.Unparen(e).(*ast.Ident)
+		if !ok {
+			return false
+		}
+		return paramIndex(info, fi.Decl, info.ObjectOf(id)) >= 0
+	}
 	var scan func(fi *load.FuncInfo, depth int)
 	scan = func(fi *load.FuncInfo, depth int) {
 		ast.Inspect(fi.Decl.Body, func(n ast.Node) bool {
@@ -1307,6 +1315,9 @@ func (c *Ctx) assetNameCodec() {
 					if tv, ok := info.Types[x.Args[0]]; ok && tv.Value != nil {
 						if f := constant.StringVal(tv.Value); strings.HasPrefix(f, "%s") && !strings.Contains(f[2:], "%") {
 							ext = f[2:]
+							if o, _ := c.origin(info, fi.Decl, x.Args[1], 0); !isParam(fi, o) {
+								rawName = exprString(o)
+							}
 						}
 					}
 				}
@@ -1320,6 +1331,9 @@ func (c *Ctx) assetNameCodec() {
 					if tv, ok := info.Types[x.Y]; ok && tv.Value != nil && tv.Value.Kind() == constant.String {
 						if s := constant.StringVal(tv.Value); strings.HasPrefix(s, ".") {
 							ext = s
+							if o, _ := c.origin(info, fi.Decl, x.X, 0); !isParam(fi, o) {
+								rawName = exprString(o)
+							}
 						}
 					}
 				}
@@ -1331,6 +1345,10 @@ func (c *Ctx) assetNameCodec() {
 	if ext == "" {
 		c.violate("repository/asset-names", site, "extension", get.Decl.Pos(), "the file name of an asset is no longer its name followed by a constant extension (undecided, fails closed)")
 		return
+	}
+	run.Oblige(rawName == "")
+	if rawName != "" {
+		c.violate("repository/asset-names", "asset.(*FileSystemRepository).Get", "name transformed", get.Decl.Pos(), "the file of an asset is named after "+rawName+", not after the asset name as it is: two different names can share one file, and Assets() lists names that were never appended")
 	}
 	// string value of an expression in Assets: constant or single-definition local
 	defs := singleDefs(info, assets.Decl.Body)
